@@ -85,3 +85,480 @@ Proof.
     + destruct (IH 0%nat) as [A1 [A2 A3]]. rewrite A1, A2, A3. cbn [Nat.min]. rewrite Nat.sub_0_r in *. lia.
     + destruct (IH p) as [B1 [B2 B3]]. rewrite B1, B2, B3. cbn [Nat.min Nat.sub]. lia.
 Qed.
+
+(** * The invariant *)
+Section Inv.
+  Variable cf : config.
+  Hypothesis Hperm : 1 <= permits cf.
+
+  Definition out_ok (s : state) (o : outcome) : Prop :=
+    match o with
+    | OErr e => md cf <> MRet /\ first_err s = Some e
+    | OCancelled => cancel_req s = true
+    | OVals rs => (md cf <> MRet -> first_err s = None) /\ rs = map res_of (ts s) /\ nlive (ts s) = 0 /\ ncanc (ts s) = 0
+    end.
+
+  Definition Inv (s : state) : Prop :=
+    0 <= value s /\ value s + nrunning (ts s) = permits cf /\ (0 < nwait (ts s) -> value s = 0) /\
+    (0 < ncanc (ts s) -> cancel_req s = true \/ md cf = MCancel) /\
+    match caller s with
+    | CIn => ncanc (ts s) = 0 /\ 0 < nlive (ts s) /\ (md cf <> MRet -> first_err s = None) /\ cancel_req s = false
+    | CReacq o => md cf = MRaise /\ value s = 0 /\ first_err s <> None /\ out_ok s o /\ (forall rs, o <> OVals rs)
+    | COut o nrun => 0 <= nrun /\ nrun + 1 <= permits cf /\ out_ok s o /\
+                     ((md cf = MRaise /\ first_err s <> None) \/ (nrun = 0 /\ nlive (ts s) = 0))
+    end.
+
+  Lemma init_inv n : Inv (init cf n).
+  Proof.
+    unfold Inv, init. cbn [ts value caller first_err cancel_req].
+    destruct (start_counts (Z.to_nat (permits cf)) n) as [H1 [H2 H3]].
+    pose proof (nlive_split (start (Z.to_nat (permits cf)) n)) as H4.
+    rewrite H1, H2 in *. rewrite H3.
+    split; [lia|]. split; [lia|]. split; [lia|]. split; [lia|].
+    destruct n as [|n].
+    - cbn [start map] in *. unfold out_ok. cbn [ts first_err]. unfold nlive. cbn [count].
+      split; [lia|]. split; [lia|]. split; [auto|]. right. auto.
+    - split; [reflexivity|]. split; [lia|]. auto.
+  Qed.
+
+  Lemma release_cases m :
+    (exists l, start_first (ts m) = Some l /\ release m = with_ts m l) \/
+    (start_first (ts m) = None /\
+     release m = {| ts := ts m; value := value m + 1;
+                    caller := match caller m with CReacq o => COut o (nrunning (ts m)) | c => c end;
+                    first_err := first_err m; cancel_req := cancel_req m |}).
+  Proof.
+    unfold release. destruct (start_first (ts m)) as [l|]; [left; exists l; auto|right].
+    split; [reflexivity|]. destruct (caller m); reflexivity.
+  Qed.
+
+  (** [Acc d s]: the accounting part of the invariant when [d] permits are in transit (d = 1: a body has just
+      finished and its permit has not been passed on yet; d = 0: it has), before gather looks at its children. *)
+  Definition Acc (d : Z) (m : state) : Prop :=
+    0 <= value m /\ value m + nrunning (ts m) = permits cf - d /\ (0 < nwait (ts m) -> value m = 0) /\
+    (0 < ncanc (ts m) -> cancel_req m = true \/ md cf = MCancel) /\
+    match caller m with
+    | CIn => ncanc (ts m) = 0 /\ cancel_req m = false
+    | CReacq o => md cf = MRaise /\ value m = 0 /\ first_err m <> None /\ out_ok m o /\ (forall rs, o <> OVals rs)
+    | COut o nrun => 0 <= nrun /\ nrun + 1 <= permits cf /\ out_ok m o /\ (forall rs, o <> OVals rs) /\
+                     md cf = MRaise /\ first_err m <> None
+    end.
+
+  Lemma out_ok_ext s s' o :
+    (forall rs, o <> OVals rs) -> first_err s' = first_err s -> cancel_req s' = cancel_req s -> out_ok s o -> out_ok s' o.
+  Proof.
+    intros Hn H1 H2 H. destruct o as [rs|e|]; cbn [out_ok] in *; [exfalso; apply (Hn rs); reflexivity| |]; congruence.
+  Qed.
+
+  Lemma release_acc m : Acc 1 m -> Acc 0 (release m).
+  Proof.
+    intros (M1 & M2 & M3 & M4 & M5).
+    destruct (release_cases m) as [[l [Hl ->]]|[Hn ->]]; unfold Acc; cbn [with_ts ts value caller first_err cancel_req].
+    - destruct (start_first_some _ _ Hl) as (W & R & C & _).
+      pose proof (count_nonneg is_TW l) as Wn. fold (nwait l) in Wn. rewrite W, R, C in *.
+      assert (V0 : value m = 0) by (apply M3; lia).
+      split; [lia|]. split; [lia|]. split; [lia|]. split; [exact M4|].
+      destruct (caller m) as [|o|o k]; [tauto| |].
+      + destruct M5 as (A & B & C' & D & E). repeat split; auto; try (apply (out_ok_ext m); auto).
+      + destruct M5 as (A & B & C' & D & E & F). repeat split; auto; try (apply (out_ok_ext m); auto).
+    - pose proof (start_first_none _ Hn) as W. rewrite W in *.
+      split; [lia|]. split; [lia|]. split; [lia|]. split; [exact M4|].
+      destruct (caller m) as [|o|o k]; [tauto| |].
+      + destruct M5 as (A & B & C' & D & E).
+        pose proof (count_nonneg is_TR (ts m)) as Rn. fold (nrunning (ts m)) in Rn.
+        split; [lia|]. split; [lia|]. split; [apply (out_ok_ext m); auto|]. auto.
+      + destruct M5 as (A & B & C' & D & E & F). repeat split; auto; try (apply (out_ok_ext m); auto).
+  Qed.
+
+  Lemma release_ghost m : first_err (release m) = first_err m /\ cancel_req (release m) = cancel_req m /\
+                          (caller (release m) = CIn <-> caller m = CIn).
+  Proof.
+    destruct (release_cases m) as [[l [Hl ->]]|[Hn ->]]; cbn [with_ts first_err cancel_req caller]; [tauto|].
+    split; [reflexivity|]. split; [reflexivity|]. destruct (caller m); split; intros H; congruence.
+  Qed.
+
+  (** a body that is running finishes: the state just before its permit is passed on *)
+  Lemma finish_acc s i x fe :
+    Inv s -> nth_error (ts s) i = Some TR -> is_live x = false -> is_canc x = false ->
+    (fe = first_err s \/ exists e, fe = note_err s e) ->
+    Acc 1 {| ts := set_nth i x (ts s); value := value s; caller := caller s; first_err := fe; cancel_req := cancel_req s |}.
+  Proof.
+    intros (I1 & I2 & I3 & I4 & I5) Hi Hx1 Hx2 Hfe. unfold Acc. cbn [ts value caller first_err cancel_req].
+    assert (XR : is_TR x = false) by (destruct x; cbn in *; congruence).
+    assert (XW : is_TW x = false) by (destruct x; cbn in *; congruence).
+    unfold nrunning, nwait, ncanc in *.
+    rewrite (count_set_nth is_TR i x TR _ Hi), (count_set_nth is_TW i x TR _ Hi), (count_set_nth is_canc i x TR _ Hi).
+    rewrite XR, XW, Hx2. cbn [is_TR is_TW is_canc].
+    pose proof (nth_TR_running _ _ Hi) as Rpos. unfold nrunning in Rpos.
+    pose proof (nlive_split (ts s)) as LS. unfold nlive, nrunning, nwait in LS.
+    pose proof (count_nonneg is_TW (ts s)) as Wn.
+    assert (FE : first_err s <> None -> fe <> None).
+    { intros Hne. destruct Hfe as [->|[e ->]]; [exact Hne|]. unfold note_err. destruct (first_err s); congruence. }
+    assert (FE2 : forall e, first_err s = Some e -> fe = Some e).
+    { intros e He. destruct Hfe as [->|[e' ->]]; [exact He|]. unfold note_err. rewrite He. reflexivity. }
+    split; [lia|]. split; [lia|]. split; [intros; apply I3; lia|]. split; [intros; apply I4; lia|].
+    destruct (caller s) as [|o|o k].
+    - destruct I5 as (A & B & C & D). split; [lia|exact D].
+    - destruct I5 as (A & B & C & D & E). repeat split; auto.
+      destruct o as [rs|e|]; cbn [out_ok first_err cancel_req ts] in *; [exfalso; apply (E rs); reflexivity| |exact D].
+      destruct D as [D1 D2]. split; [exact D1|apply FE2; exact D2].
+    - destruct I5 as (A & B & C & D).
+      assert (L : md cf = MRaise /\ first_err s <> None).
+      { destruct D as [D|[_ D]]; [exact D|]. unfold nlive in D. lia. }
+      assert (NV : forall rs, o <> OVals rs).
+      { intros rs ->. cbn [out_ok] in C. destruct C as (_ & _ & C). unfold nlive in C. lia. }
+      repeat split; auto; try tauto.
+      destruct o as [rs|e|]; cbn [out_ok first_err cancel_req ts] in *; [exfalso; apply (NV rs); reflexivity| |exact C].
+      destruct C as [C1 C2]. split; [exact C1|apply FE2; exact C2].
+  Qed.
+
+  (** from the accounting after the hand-over back to the invariant, when gather has nothing to do *)
+  Lemma acc_inv_not_in s : Acc 0 s -> caller s <> CIn -> Inv s.
+  Proof.
+    intros (A1 & A2 & A3 & A4 & A5) Hc. unfold Inv.
+    split; [lia|]. split; [lia|]. split; [exact A3|]. split; [exact A4|].
+    destruct (caller s) as [|o|o k]; [congruence|exact A5|].
+    destruct A5 as (B1 & B2 & B3 & B4 & B5 & B6). repeat split; auto.
+  Qed.
+
+  Lemma finish_gather_inv s :
+    Acc 0 s -> (caller s = CIn -> md cf <> MRet -> first_err s = None) -> Inv (finish_gather s).
+  Proof.
+    intros HA Hfe. unfold finish_gather. destruct (caller s) eqn:Hc; try (apply acc_inv_not_in; [exact HA|congruence]).
+    destruct HA as (A1 & A2 & A3 & A4 & A5). rewrite Hc in A5. destruct A5 as [A5 A6].
+    destruct (all_done (ts s)) eqn:Hd.
+    - apply all_done_iff in Hd. unfold Inv, with_caller. cbn [ts value caller first_err cancel_req].
+      split; [lia|]. split; [lia|]. split; [exact A3|]. split; [exact A4|].
+      split; [lia|]. split; [lia|]. split; [|right; auto].
+      unfold out_ok. cbn [first_err ts]. auto.
+    - unfold Inv. rewrite Hc. split; [lia|]. split; [lia|]. split; [exact A3|]. split; [exact A4|].
+      split; [exact A5|]. split; [|split; [auto|exact A6]].
+      pose proof (count_nonneg is_live (ts s)) as Ln. fold (nlive (ts s)) in Ln.
+      destruct (Z.eq_dec (nlive (ts s)) 0) as [E|E]; [|lia].
+      apply all_done_iff in E. congruence.
+  Qed.
+
+  Lemma kill_all_inv s o :
+    Acc 0 s -> caller s = CIn -> (forall rs, o <> OVals rs) ->
+    forall req, (req = true \/ md cf = MCancel) ->
+    out_ok {| ts := ts s; value := value s; caller := caller s; first_err := first_err s; cancel_req := req |} o ->
+    Inv (kill_all s o req).
+  Proof.
+    intros (A1 & A2 & A3 & A4 & A5) Hc Hno req Hreq Hok.
+    unfold Inv, kill_all. cbn [ts value caller first_err cancel_req].
+    destruct (cancel_all_counts (ts s)) as (K1 & K2 & K3).
+    pose proof (nlive_split (cancel_all (ts s))) as LS.
+    pose proof (count_nonneg is_TR (ts s)) as Rn. fold (nrunning (ts s)) in Rn.
+    rewrite K1, K2 in *.
+    split; [lia|]. split; [lia|]. split; [lia|]. split; [intros _; exact Hreq|].
+    split; [lia|]. split; [lia|]. split; [|right; lia].
+    destruct o as [rs|e|]; cbn [out_ok first_err cancel_req ts] in *; [exfalso; apply (Hno rs); reflexivity|exact Hok|exact Hok].
+  Qed.
+
+  Theorem step_inv s a : Inv s -> Inv (step cf s a).
+  Proof.
+    intros HI. unfold step. destruct a as [i v|i e|].
+    - (* a body returns *)
+      destruct (nth_error (ts s) i) as [t|] eqn:Hi; [|exact HI]. destruct t; try exact HI.
+      pose proof (finish_acc s i (TOk v) (first_err s) HI Hi eq_refl eq_refl (or_introl eq_refl)) as HM.
+      unfold with_ts at 1.
+      set (m := {| ts := set_nth i (TOk v) (ts s); value := value s; caller := caller s;
+                   first_err := first_err s; cancel_req := cancel_req s |}) in *.
+      apply finish_gather_inv; [apply release_acc; exact HM|].
+      destruct (release_ghost m) as (G1 & G2 & G3). intros Hc Hm. rewrite G1. apply G3 in Hc.
+      assert (Hcs : caller s = CIn) by exact Hc.
+      destruct HI as (_ & _ & _ & _ & I5). rewrite Hcs in I5. destruct I5 as (_ & _ & I5 & _).
+      change (first_err s = None). apply I5. exact Hm.
+    - (* a body raises *)
+      destruct (nth_error (ts s) i) as [t|] eqn:Hi; [|exact HI]. destruct t; try exact HI.
+      pose proof (finish_acc s i (TErr e) (note_err s e) HI Hi eq_refl eq_refl (or_intror (ex_intro _ e eq_refl))) as HM.
+      set (m := {| ts := set_nth i (TErr e) (ts s); value := value s; caller := caller s;
+                   first_err := note_err s e; cancel_req := cancel_req s |}) in *.
+      pose proof (release_acc m HM) as HA.
+      destruct (release_ghost m) as (G1 & G2 & G3).
+      cbv zeta.
+      destruct (caller (release m)) eqn:Hc; try (apply acc_inv_not_in; [exact HA|congruence]).
+      assert (Hcs : caller s = CIn) by (apply G3; reflexivity).
+      assert (Hfe : md cf <> MRet -> first_err (release m) = Some e).
+      { intros Hm. rewrite G1.
+        destruct HI as (_ & _ & _ & _ & I5). rewrite Hcs in I5. destruct I5 as (_ & _ & I5 & _).
+        change (note_err s e = Some e). unfold note_err. rewrite (I5 Hm). reflexivity. }
+      destruct (md cf) eqn:Hmd.
+      + apply finish_gather_inv; [exact HA|]. intros _ Hm. congruence.
+      + destruct HA as (A1 & A2 & A3 & A4 & A5). rewrite Hc in A5. destruct A5 as [A5 A6].
+        assert (Hfe' : first_err (release m) = Some e) by (apply Hfe; congruence).
+        destruct ((0 <? value (release m)) && negb (existsb is_TW (ts (release m)))) eqn:Hcond;
+          unfold Inv, with_caller; cbn [ts value caller first_err cancel_req];
+          (split; [lia|]); (split; [lia|]); (split; [exact A3|]); (split; [exact A4|]).
+        * apply andb_true_iff in Hcond. destruct Hcond as [C1 C2].
+          pose proof (count_nonneg is_TR (ts (release m))) as Rn. fold (nrunning (ts (release m))) in Rn.
+          split; [lia|]. split; [lia|]. split; [|left; split; [exact Hmd|congruence]].
+          cbn [out_ok first_err]. split; [congruence|exact Hfe'].
+        * split; [exact Hmd|]. split.
+          { apply andb_false_iff in Hcond. destruct Hcond as [C|C].
+            - lia.
+            - apply negb_false_iff in C. apply exists_TW_iff in C. apply A3. exact C. }
+          split; [congruence|]. split; [|intros rs; discriminate].
+          cbn [out_ok first_err]. split; [congruence|exact Hfe'].
+      + apply kill_all_inv; [exact HA|exact Hc|intros rs; discriminate|right; exact Hmd|].
+        cbn [out_ok first_err]. split; [congruence|apply Hfe; congruence].
+    - (* the caller is cancelled *)
+      destruct (caller s) as [|o|o k] eqn:Hc; [| |exact HI].
+      + destruct HI as (I1 & I2 & I3 & I4 & I5). rewrite Hc in I5. destruct I5 as (B1 & B2 & B3 & B4).
+        apply kill_all_inv; [|exact Hc|intros rs; discriminate|left; reflexivity|reflexivity].
+        unfold Acc. rewrite Hc. split; [lia|]. split; [lia|]. split; [exact I3|]. split; [exact I4|]. auto.
+      + destruct HI as (I1 & I2 & I3 & I4 & I5). rewrite Hc in I5. destruct I5 as (B1 & B2 & B3 & B4 & B5).
+        unfold Inv. cbn [ts value caller first_err cancel_req].
+        split; [lia|]. split; [lia|]. split; [exact I3|]. split; [intros _; left; reflexivity|].
+        split; [exact B1|]. split; [exact B2|]. split; [exact B3|]. split; [reflexivity|intros rs; discriminate].
+  Qed.
+
+  Lemma run_inv n acts : Inv (run cf n acts).
+  Proof.
+    unfold run. generalize (init_inv n). generalize (init cf n).
+    induction acts as [|a acts IH]; intros s Hs; cbn [fold_left]; [exact Hs|].
+    apply IH. apply step_inv. exact Hs.
+  Qed.
+End Inv.
+
+(** * Results and ghosts are what the schedule scripted *)
+Definition scripted (a : action) (j : nat) (y : tstat) : Prop :=
+  match a with
+  | Ok i v => i = j /\ y = TOk v
+  | Err i e => i = j /\ y = TErr e
+  | CancelCaller => False
+  end.
+
+Lemma nth_set_nth i x l j y :
+  nth_error (set_nth i x l) j = Some y -> (i = j /\ y = x) \/ nth_error l j = Some y.
+Proof.
+  revert i j. induction l as [|t r IH]; intros i j H; [destruct i; cbn in H; destruct j; discriminate|].
+  destruct i as [|i], j as [|j]; cbn [set_nth nth_error] in *; auto.
+  - inversion H; auto.
+  - destruct (IH i j H) as [[-> ->]|H']; auto.
+Qed.
+
+Lemma nth_start_first l l' j y :
+  start_first l = Some l' -> nth_error l' j = Some y -> y <> TR -> nth_error l j = Some y.
+Proof.
+  revert l' j. induction l as [|t r IH]; intros l' j H Hj Hy; cbn [start_first] in H; [discriminate|].
+  destruct t; try (inversion H; subst; destruct j; cbn [nth_error] in *; [inversion Hj; subst; congruence|exact Hj]);
+    (destruct (start_first r) as [r'|] eqn:E; [|discriminate]; inversion H; subst;
+     destruct j; cbn [nth_error] in *; [exact Hj|apply (IH r' j eq_refl Hj Hy)]).
+Qed.
+
+Lemma nth_cancel_all l j y :
+  nth_error (cancel_all l) j = Some y -> res_of y <> RC -> nth_error l j = Some y.
+Proof.
+  unfold cancel_all. intros H Hy. rewrite nth_error_map in H.
+  destruct (nth_error l j) as [t|]; cbn [option_map] in H; [|discriminate].
+  inversion H; subst. destruct t; cbn [cancel_task res_of] in *; congruence.
+Qed.
+
+Lemma ts_release m j y : nth_error (ts (release m)) j = Some y -> y <> TR -> nth_error (ts m) j = Some y.
+Proof.
+  unfold release. destruct (start_first (ts m)) as [l|] eqn:E.
+  - cbn [with_ts ts]. intros H Hy. apply (nth_start_first _ _ _ _ E H Hy).
+  - destruct (caller m); cbn [ts]; auto.
+Qed.
+
+Lemma ts_finish_gather s : ts (finish_gather s) = ts s.
+Proof. unfold finish_gather. destruct (caller s); [|reflexivity|reflexivity]. destruct (all_done (ts s)); reflexivity. Qed.
+
+Lemma step_ts cf s a j y :
+  nth_error (ts (step cf s a)) j = Some y -> res_of y <> RC -> nth_error (ts s) j = Some y \/ scripted a j y.
+Proof.
+  intros H Hy. assert (HR : y <> TR) by (intros ->; apply Hy; reflexivity).
+  unfold step in H. destruct a as [i v|i e|]; cbn [scripted].
+  - destruct (nth_error (ts s) i) as [t|] eqn:Hi; [|auto]. destruct t; auto.
+    rewrite ts_finish_gather in H. apply ts_release in H; [|exact HR]. cbn [with_ts ts] in H.
+    apply nth_set_nth in H. tauto.
+  - destruct (nth_error (ts s) i) as [t|] eqn:Hi; [|auto]. destruct t; auto.
+    cbv zeta in H.
+    match type of H with context [release ?m] => set (m0 := m) in * end.
+    assert (HX : nth_error (ts (release m0)) j = Some y).
+    { destruct (caller (release m0)); [|exact H|exact H].
+      destruct (md cf).
+      - rewrite ts_finish_gather in H. exact H.
+      - destruct ((0 <? value (release m0)) && negb (existsb is_TW (ts (release m0)))); exact H.
+      - unfold kill_all in H. cbn [ts] in H. apply nth_cancel_all in H; assumption. }
+    apply ts_release in HX; [|exact HR]. unfold m0 in HX. cbn [ts] in HX.
+    apply nth_set_nth in HX. tauto.
+  - destruct (caller s); [|left; exact H|left; exact H].
+    unfold kill_all in H. cbn [ts] in H. left. apply nth_cancel_all in H; assumption.
+Qed.
+
+Lemma run_snoc cf n acts a : run cf n (acts ++ [a]) = step cf (run cf n acts) a.
+Proof. unfold run. rewrite fold_left_app. reflexivity. Qed.
+
+Lemma init_no_results cf n j y : nth_error (ts (init cf n)) j = Some y -> res_of y = RC.
+Proof.
+  unfold init. cbn [ts]. generalize (Z.to_nat (permits cf)). revert j.
+  induction n as [|n IH]; intros j p H; cbn [start] in H; [destruct j; discriminate|].
+  destruct p; (destruct j; cbn [nth_error] in H; [inversion H; reflexivity|apply (IH _ _ H)]).
+Qed.
+
+Lemma results_scripted cf n acts j y :
+  nth_error (ts (run cf n acts)) j = Some y -> res_of y <> RC -> exists a, In a acts /\ scripted a j y.
+Proof.
+  induction acts as [|a acts IH] using rev_ind; intros H Hy.
+  - exfalso. apply Hy. apply (init_no_results cf n j y H).
+  - rewrite run_snoc in H. apply step_ts in H; [|exact Hy]. destruct H as [H|H].
+    + destruct (IH H Hy) as [a' [Ha' Hs]]. exists a'. split; [apply in_app_iff; auto|exact Hs].
+    + exists a. split; [apply in_app_iff; right; left; reflexivity|exact H].
+Qed.
+
+Lemma step_first_err cf s a :
+  first_err (step cf s a) = first_err s \/
+  (first_err s = None /\ exists i e, a = Err i e /\ nth_error (ts s) i = Some TR /\ first_err (step cf s a) = Some e).
+Proof.
+  unfold step. destruct a as [i v|i e|].
+  - destruct (nth_error (ts s) i) as [t|]; [|auto]. destruct t; auto. left.
+    unfold finish_gather. set (m := with_ts s (set_nth i (TOk v) (ts s))).
+    assert (E : first_err (release m) = first_err s).
+    { unfold release. destruct (start_first (ts m)); [reflexivity|]. destruct (caller m); reflexivity. }
+    destruct (caller (release m)); [|exact E|exact E]. destruct (all_done (ts (release m))); exact E.
+  - destruct (nth_error (ts s) i) as [t|] eqn:Hi; [|auto]. destruct t; auto.
+    cbv zeta. match goal with |- context [release ?m0] => set (m := m0) end.
+    assert (E : first_err (release m) = note_err s e).
+    { unfold release. destruct (start_first (ts m)); [reflexivity|]. destruct (caller m); reflexivity. }
+    assert (E2 : first_err (match caller (release m) with
+                            | CIn => match md cf with
+                                     | MRet => finish_gather (release m)
+                                     | MRaise => if (0 <? value (release m)) && negb (existsb is_TW (ts (release m)))
+                                                 then with_caller (release m) (COut (OErr e) (nrunning (ts (release m))))
+                                                 else with_caller (release m) (CReacq (OErr e))
+                                     | MCancel => kill_all (release m) (OErr e) (cancel_req (release m))
+                                     end
+                            | _ => release m end) = note_err s e).
+    { destruct (caller (release m)) eqn:Hc; [|exact E|exact E]. destruct (md cf).
+      - unfold finish_gather. rewrite Hc. destruct (all_done (ts (release m))); exact E.
+      - destruct ((0 <? value (release m)) && negb (existsb is_TW (ts (release m)))); exact E.
+      - exact E. }
+    rewrite E2. unfold note_err. destruct (first_err s) as [e0|] eqn:F; [left; reflexivity|].
+    right. split; [reflexivity|]. exists i, e. auto.
+  - left. destruct (caller s); reflexivity.
+Qed.
+
+Lemma first_err_origin cf n acts e :
+  first_err (run cf n acts) = Some e ->
+  exists acts1 i acts2, acts = acts1 ++ Err i e :: acts2 /\ first_err (run cf n acts1) = None /\
+                        nth_error (ts (run cf n acts1)) i = Some TR.
+Proof.
+  induction acts as [|a acts IH] using rev_ind; intros H.
+  - unfold run, init in H. cbn in H. discriminate.
+  - rewrite run_snoc in H. destruct (step_first_err cf (run cf n acts) a) as [E|[E [i [e' [Ha [Hi E2]]]]]].
+    + rewrite E in H. destruct (IH H) as [a1 [i [a2 [H1 [H2 H3]]]]].
+      exists a1, i, (a2 ++ [a]). split; [rewrite H1, <- app_assoc; reflexivity|auto].
+    + rewrite E2 in H. inversion H; subst. exists acts, i, []. auto.
+Qed.
+
+Lemma step_cancel_req cf s a : cancel_req (step cf s a) = true -> cancel_req s = true \/ a = CancelCaller.
+Proof.
+  unfold step. destruct a as [i v|i e|]; [| |auto].
+  - destruct (nth_error (ts s) i) as [t|]; [|auto]. destruct t; auto.
+    set (m := with_ts s (set_nth i (TOk v) (ts s))).
+    assert (E : cancel_req (release m) = cancel_req s).
+    { unfold release. destruct (start_first (ts m)); [reflexivity|]. destruct (caller m); reflexivity. }
+    unfold finish_gather. destruct (caller (release m)); [|rewrite E; auto|rewrite E; auto].
+    destruct (all_done (ts (release m))); cbn [with_caller cancel_req]; rewrite E; auto.
+  - destruct (nth_error (ts s) i) as [t|]; [|auto]. destruct t; auto.
+    cbv zeta. match goal with |- context [release ?m0] => set (m := m0) end.
+    assert (E : cancel_req (release m) = cancel_req s).
+    { unfold release. destruct (start_first (ts m)); [reflexivity|]. destruct (caller m); reflexivity. }
+    destruct (caller (release m)) eqn:Hc; [|rewrite E; auto|rewrite E; auto]. destruct (md cf).
+    + unfold finish_gather. rewrite Hc. destruct (all_done (ts (release m))); cbn [with_caller cancel_req]; rewrite E; auto.
+    + destruct ((0 <? value (release m)) && negb (existsb is_TW (ts (release m)))); cbn [with_caller cancel_req]; rewrite E; auto.
+    + cbn [kill_all cancel_req]. rewrite E. auto.
+Qed.
+
+Lemma cancel_req_origin cf n acts : cancel_req (run cf n acts) = true -> In CancelCaller acts.
+Proof.
+  induction acts as [|a acts IH] using rev_ind; intros H.
+  - unfold run, init in H. cbn in H. discriminate.
+  - rewrite run_snoc in H. apply step_cancel_req in H. apply in_app_iff.
+    destruct H as [H|H]; [left; apply IH; exact H|right; left; exact H].
+Qed.
+
+(** once the helper has returned it has returned: nothing changes its outcome *)
+Lemma release_out_stable m o k : caller m = COut o k -> caller (release m) = COut o k.
+Proof.
+  intros Hc. unfold release. destruct (start_first (ts m)); [exact Hc|]. rewrite Hc. reflexivity.
+Qed.
+
+Lemma step_out_stable cf s a o k : caller s = COut o k -> caller (step cf s a) = COut o k.
+Proof.
+  intros Hc. unfold step. destruct a as [i v|i e|].
+  - destruct (nth_error (ts s) i) as [t|]; [|exact Hc]. destruct t; try exact Hc.
+    unfold finish_gather. rewrite (release_out_stable _ o k); [apply release_out_stable|]; exact Hc.
+  - destruct (nth_error (ts s) i) as [t|]; [|exact Hc]. destruct t; try exact Hc.
+    cbv zeta. rewrite (release_out_stable _ o k); [apply release_out_stable|]; exact Hc.
+  - rewrite Hc. exact Hc.
+Qed.
+
+(** * The hypotheses are satisfiable, the interesting outcomes are reachable *)
+Definition demo (m : mode) : config := {| permits := 2; md := m |}.
+
+Example demo_cancel :
+  run (demo MCancel) 4 [Err 0 7] =
+  {| ts := [TErr 7; TCr; TCr; TCw]; value := 2; caller := COut (OErr 7) 0; first_err := Some 7; cancel_req := false |}.
+Proof. vm_compute. reflexivity. Qed.
+
+Example demo_raise :
+  run (demo MRaise) 4 [Err 0 7; CancelCaller; Ok 1 11; Ok 2 12] =
+  {| ts := [TErr 7; TOk 11; TOk 12; TR]; value := 1; caller := COut OCancelled 1; first_err := Some 7; cancel_req := true |}.
+Proof. vm_compute. reflexivity. Qed.
+
+Example demo_ret :
+  run (demo MRet) 3 [Err 1 7; Ok 0 10; Ok 2 12] =
+  {| ts := [TOk 10; TErr 7; TOk 12]; value := 2; caller := COut (OVals [RV 10; RE 7; RV 12]) 0; first_err := Some 7; cancel_req := false |}.
+Proof. vm_compute. reflexivity. Qed.
+
+(** * A body that raised leaves its mark in the ghost *)
+Lemma step_first_err_effective cf s i e :
+  nth_error (ts s) i = Some TR -> first_err (step cf s (Err i e)) = note_err s e.
+Proof.
+  intros Hi. unfold step. rewrite Hi. cbv zeta.
+  match goal with |- context [release ?m0] => set (m := m0) end.
+  assert (E : first_err (release m) = note_err s e).
+  { unfold release. destruct (start_first (ts m)); [reflexivity|]. destruct (caller m); reflexivity. }
+  destruct (caller (release m)) eqn:Hc; [|exact E|exact E]. destruct (md cf).
+  - unfold finish_gather. rewrite Hc. destruct (all_done (ts (release m))); exact E.
+  - destruct ((0 <? value (release m)) && negb (existsb is_TW (ts (release m)))); exact E.
+  - exact E.
+Qed.
+
+Definition err_inv (s : state) : Prop :=
+  forall j e, nth_error (ts s) j = Some (TErr e) -> first_err s <> None.
+
+Lemma step_err_inv cf s a : err_inv s -> err_inv (step cf s a).
+Proof.
+  intros H j e Hj.
+  assert (Keep : first_err s <> None -> first_err (step cf s a) <> None).
+  { intros Hne. destruct (step_first_err cf s a) as [E|[E _]]; congruence. }
+  destruct a as [i v|i e'|].
+  - apply step_ts in Hj; [|discriminate]. destruct Hj as [Hold|[_ Hs]]; [apply Keep; apply (H j e Hold)|discriminate].
+  - destruct (nth_error (ts s) i) as [t|] eqn:Hi.
+    + destruct t; try (unfold step in *; rewrite Hi in *; apply (H j e Hj)).
+      rewrite step_first_err_effective by exact Hi. unfold note_err. destruct (first_err s); discriminate.
+    + unfold step in *. rewrite Hi in *. apply (H j e Hj).
+  - apply step_ts in Hj; [|discriminate]. destruct Hj as [Hold|Hs]; [apply Keep; apply (H j e Hold)|contradiction].
+Qed.
+
+Lemma run_err_inv cf n acts : err_inv (run cf n acts).
+Proof.
+  induction acts as [|a acts IH] using rev_ind.
+  - intros j e Hj. apply init_no_results in Hj. discriminate.
+  - rewrite run_snoc. apply step_err_inv. exact IH.
+Qed.
+
+(** every task that is neither live nor cancelled nor failed has returned a value *)
+Lemma done_is_ok l j y :
+  nlive l = 0 -> ncanc l = 0 -> nth_error l j = Some y -> (exists v, y = TOk v) \/ (exists e, y = TErr e).
+Proof.
+  unfold nlive, ncanc. revert j. induction l as [|t r IH]; intros j HL HC Hj; [destruct j; discriminate|].
+  cbn [count] in HL, HC. pose proof (count_nonneg is_live r). pose proof (count_nonneg is_canc r).
+  destruct j as [|j]; cbn [nth_error] in Hj.
+  - inversion Hj; subst. destruct y; cbn [is_live is_canc] in *; try lia; eauto.
+  - apply (IH j); [destruct (is_live t); lia | destruct (is_canc t); lia | exact Hj].
+Qed.
